@@ -47,6 +47,18 @@ def make_material(kind):
         return Models.Elastic.Isotropic(2, E=210.0, v=0.25, planeStress=True)
     if kind == "aniso":
         return Models.Elastic.TransverselyIsotropic(2, 300.0, 120.0, 70.0, 0.2, 0.35, axis_l=(0.8, 0.6, 0.0), axis_t=(-0.6, 0.8, 0.0), planeStress=False)
+    if kind == "aniso-set":
+        # ONE anisotropic material object whose stiffness is replaced after a split was already evaluated with it (Set_C without the
+        # compliance update): every later split must be the one of the stiffness the object holds now
+        from EasyFEA.FEM import FeArray
+
+        C1 = np.asarray(make_material("aniso").C, dtype=float)
+        C0 = 2.0 * C1 + np.diag([40.0, 10.0, 25.0])
+        m = Models.Elastic.Anisotropic(2, C0, False)
+        warm = Models.PhaseField(m, "He", "AT2", Gc=1.0, l0=0.1)
+        warm.Calc_C(FeArray.asfearray(np.array([[[0.3, -0.2, 0.1]]])))
+        m.Set_C(C1, False, update_S=False)
+        return m
     raise KeyError(kind)
 
 
@@ -739,6 +751,7 @@ def main():
         # stress-based decompositions and the tolerance queries on equality regions are then not decided within the budget)
         for b in (["zero", "hydrostatic+", "hydrostatic-", "uniaxial"] if tier == "thorough" else ["zero"]):
             configs.append({"kind": "split", "split": split, "material": "aniso", "B": b})
+    configs.append({"kind": "split", "split": "He", "material": "aniso-set", "B": "zero"})
     for regu in ("AT1", "AT2"):
         configs.append({"kind": "regu", "regu": regu})
     # the history update (elementwise maximum with the stored field) does not depend on the split: the polynomial psi+ of Bourdin keeps the
